@@ -258,6 +258,27 @@ func init() {
 				}
 				return
 			}
+			var cyc c02CycleCase
+			if json.Unmarshal(ctx.Replay, &cyc) == nil && cyc.Cycle {
+				ctx.Case(cyc, "", "close-and-reobtain-cycles", "")
+				if _, f := c02CycleBoth(&cyc); f != "" {
+					ctx.Fail("deliveries_add_up_to_increments", f, cyc, nil)
+				}
+				return
+			}
+			var cm struct {
+				R      bool `json:"caller_map_reuse"`
+				Cached bool `json:"cached"`
+				PT     bool `json:"parent_tagged"`
+				San    bool `json:"sanitizer"`
+			}
+			if json.Unmarshal(ctx.Replay, &cm) == nil && cm.R {
+				ctx.Case(cm, "", "caller-map-reused-after-tagged", "")
+				if f := callerMapReuse(0, cm.Cached, cm.PT, cm.San); f != "" {
+					ctx.Fail("deliveries_add_up_to_increments", f, cm, nil)
+				}
+				return
+			}
 			var sh struct {
 				S      bool `json:"stale_handles"`
 				Cached bool `json:"cached"`
@@ -423,6 +444,25 @@ func init() {
 			if f := c08InFlight(k%2 == 1, false, which); f != "" {
 				ctx.Fail("deliveries_add_up_to_increments", f, cs, nil)
 				break
+			}
+		}
+		// scopes obtained through spellings that a sanitizer merges (tag keys or sub-scope names), closed
+		// and obtained again, with and without passes in between (stream of C02): the increments add up
+		for k, nk := 0, ctx.N(400, 6000); k < nk; k++ {
+			cy := c02GenCycle(ctx.R)
+			ctx.Case(cy, "", "close-and-reobtain-cycles", "")
+			if _, f := c02CycleBoth(&cy); f != "" {
+				ctx.Fail("deliveries_add_up_to_increments", f, cy, nil)
+				break
+			}
+		}
+		// the caller re-uses the map it handed to Tagged: every counter is delivered under the tags its
+		// scope was derived with
+		for k := 0; k < 8; k++ {
+			cs := map[string]interface{}{"caller_map_reuse": true, "cached": k&1 == 1, "parent_tagged": k&2 == 2, "sanitizer": k&4 == 4}
+			ctx.Case(cs, "", "caller-map-reused-after-tagged", "")
+			if f := callerMapReuse(0, k&1 == 1, k&2 == 2, k&4 == 4); f != "" {
+				ctx.Fail("deliveries_add_up_to_increments", f, cs, nil)
 			}
 		}
 		// handles of dropped scopes stay harmless for every other counter and histogram
